@@ -198,7 +198,7 @@ impl Deserialize for TransactionOutputs {
                 cbor_event::Len::Len(n) => arr.len() < n as usize,
                 cbor_event::Len::Indefinite => true,
             } {
-                if is_break_tag(raw, "TransactionOutputs")? {
+                if is_break_tag(raw, &len, "TransactionOutputs")? {
                     break;
                 }
                 arr.push(TransactionOutput::deserialize(raw)?);
@@ -1019,7 +1019,7 @@ impl Deserialize for RewardAddresses {
                 cbor_event::Len::Len(n) => arr.len() < n as usize,
                 cbor_event::Len::Indefinite => true,
             } {
-                if is_break_tag(raw, "RewardAddresses")? {
+                if is_break_tag(raw, &len, "RewardAddresses")? {
                     break;
                 }
                 arr.push(RewardAddress::deserialize(raw)?);
@@ -1054,7 +1054,7 @@ impl Deserialize for Withdrawals {
                 cbor_event::Len::Len(n) => table.len() < n as usize,
                 cbor_event::Len::Indefinite => true,
             } {
-                if is_break_tag(raw, "Withdrawals")? {
+                if is_break_tag(raw, &len, "Withdrawals")? {
                     break;
                 }
                 let key = RewardAddress::deserialize(raw)?;
@@ -1152,7 +1152,7 @@ impl Deserialize for GenesisHashes {
                 cbor_event::Len::Len(n) => arr.len() < n as usize,
                 cbor_event::Len::Indefinite => true,
             } {
-                if is_break_tag(raw, "GenesisHashes")? {
+                if is_break_tag(raw, &len, "GenesisHashes")? {
                     break;
                 }
                 arr.push(GenesisHash::deserialize(raw)?);
@@ -1186,7 +1186,7 @@ impl Deserialize for ScriptHashes {
                 cbor_event::Len::Len(n) => arr.len() < n as usize,
                 cbor_event::Len::Indefinite => true,
             } {
-                if is_break_tag(raw, "ScriptHashes")? {
+                if is_break_tag(raw, &len, "ScriptHashes")? {
                     break;
                 }
                 arr.push(ScriptHash::deserialize(raw)?);
@@ -1221,7 +1221,7 @@ impl Deserialize for ProposedProtocolParameterUpdates {
                 cbor_event::Len::Len(n) => table.len() < n as usize,
                 cbor_event::Len::Indefinite => true,
             } {
-                if is_break_tag(raw, "ProposedProtocolParameterUpdates")? {
+                if is_break_tag(raw, &len, "ProposedProtocolParameterUpdates")? {
                     break;
                 }
                 let key = GenesisHash::deserialize(raw)?;
@@ -1323,7 +1323,7 @@ impl Deserialize for AuxiliaryDataSet {
                 cbor_event::Len::Len(n) => table.len() < n as usize,
                 cbor_event::Len::Indefinite => true,
             } {
-                if is_break_tag(raw, "AuxiliaryDataSet")? {
+                if is_break_tag(raw, &len, "AuxiliaryDataSet")? {
                     break;
                 }
                 let key = TransactionIndex::deserialize(raw)?;
@@ -1379,7 +1379,7 @@ impl Deserialize for AssetNames {
                 cbor_event::Len::Len(n) => arr.len() < n as usize,
                 cbor_event::Len::Indefinite => true,
             } {
-                if is_break_tag(raw, "AssetNames")? {
+                if is_break_tag(raw, &len, "AssetNames")? {
                     break;
                 }
                 arr.push(AssetName::deserialize(raw)?);
@@ -1414,7 +1414,7 @@ impl Deserialize for Assets {
                 cbor_event::Len::Len(n) => table.len() < n as usize,
                 cbor_event::Len::Indefinite => true,
             } {
-                if is_break_tag(raw, "Assets")? {
+                if is_break_tag(raw, &len, "Assets")? {
                     break;
                 }
                 let key = AssetName::deserialize(raw)?;
@@ -1456,7 +1456,7 @@ impl Deserialize for MultiAsset {
                 cbor_event::Len::Len(n) => table.len() < n as usize,
                 cbor_event::Len::Indefinite => true,
             } {
-                if is_break_tag(raw, "MultiAsset")? {
+                if is_break_tag(raw, &len, "MultiAsset")? {
                     break;
                 }
                 let key = PolicyID::deserialize(raw)?;
@@ -1498,7 +1498,7 @@ impl Deserialize for MintAssets {
                 cbor_event::Len::Len(n) => table.len() < n as usize,
                 cbor_event::Len::Indefinite => true,
             } {
-                if is_break_tag(raw, "MintAssets")? {
+                if is_break_tag(raw, &len, "MintAssets")? {
                     break;
                 }
                 let key = AssetName::deserialize(raw)?;
@@ -1540,7 +1540,7 @@ impl Deserialize for Mint {
                 cbor_event::Len::Len(n) => mints.len() < n as usize,
                 cbor_event::Len::Indefinite => true,
             } {
-                if is_break_tag(raw, "Mint")? {
+                if is_break_tag(raw, &len, "Mint")? {
                     break;
                 }
                 let key = PolicyID::deserialize(raw)?;
